@@ -162,6 +162,12 @@ def length_source(fx, s, atom):
 
 def check(ctx):
     fx = ctx.fx
+    check_poll_protocol(ctx)
+    check_wake_sites(ctx)
+
+
+def check_poll_protocol(ctx):
+    fx = ctx.fx
     # ------------------------------------------------------------------ R04.1 poll_next
     k = f"{STREAM} as futures::Stream::poll_next"
     f = fx.fn_opt(k) or [x for x in fx.fns if x.get("impl_self") == STREAM and x["key"].endswith("::poll_next")][0]
@@ -212,6 +218,11 @@ def check(ctx):
     lk = [(b, c) for (b, c) in body.calls if (c.get("resolved") or c.get("f")) == R.SPIN_LOCK]
     retry = any(body.dominates(lb, wb) for (lb, _) in lk for (wb, _) in wk)
     ctx.ob("R04.2", f"{k}|retries-under-lock-when-empty", len(wk) >= 2 and retry, f"{body.f['file']}:{body.f['line']}", "wake_stream wakes the registered waker and, when it found the slot empty, looks again under wakers_lock")
+    ctx.floor("R04.2", 4); ctx.floor("R04.1", 4)
+
+
+def check_wake_sites(ctx):
+    fx = ctx.fx
     # ------------------------------------------------------------------ wake sites
     sites = wake_sites(fx)
     ctx.ob("R04.3", "wake-sites|count", len(sites) >= 30, "", f"{len(sites)} wake_stream call sites in channel code (32 confirmed by reading)", nontrivial=False)
@@ -282,7 +293,7 @@ def check(ctx):
             if _unimplemented(fx, key): continue
             n6 += 1
             ctx.ob("R04.6", f"{key}|reaches-a-wake", wake_reach(key), f"{f['file']}:{f['line']}", "this accept entry point (or the send it delegates to) contains a wake decision")
-    ctx.floor("R04.6", 30); ctx.floor("R04.5", 28); ctx.floor("R04.3", 30); ctx.floor("R04.2", 4); ctx.floor("R04.1", 4)
+    ctx.floor("R04.6", 30); ctx.floor("R04.5", 28); ctx.floor("R04.3", 30)
 
 
 def _short(s):
